@@ -35,6 +35,13 @@ func GenCatalogue() []GenLayout {
 		tl(VideoRep("V300", 90000, 3000, alt)),
 		tl(AudioRep("A48", 1024, AudioDursFollowing(alt, 90000, 48000, 1024, 0))))
 
+	sb := StppRep("sub_en", 1000, UniformDurs(4, 2000))
+	sb.BothSizes = true
+	sc := StppRep("sub_sv", 1000, UniformDurs(4, 2000))
+	sc.CompactTrun = true
+	add("ok", "stpp subtitles whose sample size is in tfhd and trun (sub_en) or only in tfhd (sub_sv)", "g_stpp_sizes",
+		VideoRep("V300", 90000, 3000, v2s), sb, sc)
+
 	v10m := UniformDurs(4, 20000000)
 	add("ok", "timescale 10 MHz (Smooth-Streaming style), 4 x 2 s at 25 fps, $Time$: products with 1000 leave 64 bits after 58 years", "g_10mhz_tl",
 		tl(VideoRep("V1", 10000000, 400000, v10m)),
